@@ -92,7 +92,7 @@ const c28Required = "required/*"
 var c28RequiredKinds = []string{"Int32", "Int64", "Uint32", "Uint64", "Sint32", "Sint64", "Fixed32", "Fixed64", "Float", "Double", "Bool", "String", "Bytes", "Message", "Group"}
 
 var c28MutAll = []string{"set", "set", "set", "set-zero", "clear", "clear", "set-msg-empty", "mutable-msg", "list-append", "list-append", "list-set", "list-truncate", "map-set", "map-set", "map-clear",
-	"oneof-set", "oneof-set", "oneof-msg-mutable", "set-unknown", "ext-set", "ext-clear", "merge", "decode-oneof-multi", "roundtrip-bin", "roundtrip-json", "roundtrip-text", "readonly-write", "check-encoded", "json-two-members", "text-two-members", "presence-sweep", "emptied-view", "emptied-view", "gen-set", "gen-set", "gen-clear", "gen-set-msg", "gen-clear-msg"}
+	"oneof-set", "oneof-set", "oneof-msg-mutable", "set-unknown", "ext-set", "ext-clear", "merge", "decode-oneof-multi", "roundtrip-bin", "roundtrip-json", "roundtrip-text", "readonly-write", "check-encoded", "json-two-members", "text-two-members", "presence-sweep", "emptied-view", "emptied-view", "gen-set", "gen-set", "gen-clear", "gen-set-msg", "gen-clear-msg", "range-scrub"}
 var c28MutC11 = []string{"set", "set", "set-zero", "set-zero", "set-zero", "clear", "clear", "presence-sweep", "emptied-view", "gen-set", "gen-set", "gen-clear", "gen-set-msg", "gen-clear-msg", "set-msg-empty", "mutable-msg", "list-append", "list-truncate", "map-set", "map-clear", "oneof-set", "ext-set", "ext-clear",
 	"roundtrip-bin", "roundtrip-bin", "roundtrip-json", "roundtrip-text", "check-encoded", "check-encoded", "merge"}
 var c28MutC12 = []string{"gen-set", "gen-set", "gen-clear", "gen-set-msg", "gen-clear-msg", "oneof-set", "oneof-set", "oneof-set", "oneof-set", "oneof-msg-mutable", "oneof-msg-mutable", "clear", "set", "merge", "merge", "decode-oneof-multi", "decode-oneof-multi", "decode-oneof-multi",
@@ -1248,6 +1248,44 @@ func (p *c28Pair) mutate(op *scn.Op, newMsg func() proto.Message) string {
 			if aspect, det := compareWithModel(q.am, qm); aspect != "" {
 				return fmt.Sprintf("%s: presence sweep, every field cleared and populated again in turn: %s", aspect, det)
 			}
+		}
+	case "range-scrub":
+		// Range with a callback that clears some of the fields it is shown (the contract allows mutating
+		// the current field): every field populated at the start is still shown exactly once
+		before := map[protoreflect.FieldNumber]bool{}
+		var order []protoreflect.FieldNumber
+		m.Range(func(fd protoreflect.FieldDescriptor, _ protoreflect.Value) bool {
+			before[fd.Number()] = true
+			return true
+		})
+		if len(before) == 0 {
+			return ""
+		}
+		mask := r.U64()
+		if op.M%3 == 0 {
+			mask = ^uint64(0) // clear everything
+		}
+		seen := map[protoreflect.FieldNumber]int{}
+		var cleared []protoreflect.FieldDescriptor
+		m.Range(func(fd protoreflect.FieldDescriptor, _ protoreflect.Value) bool {
+			seen[fd.Number()]++
+			order = append(order, fd.Number())
+			if mask>>(uint(fd.Number())%64)&1 == 1 { // by number, not by position: the order of visits is not part of the state
+				m.Clear(fd)
+				cleared = append(cleared, fd)
+			}
+			return true
+		})
+		for _, fd := range cleared {
+			am.Clear(fd)
+		}
+		for n := range before {
+			if seen[n] != 1 {
+				return fmt.Sprintf("range: Range with a callback that clears the fields it is shown visited field %d %d times (%d fields were populated, %d visits in all)", n, seen[n], len(before), len(order))
+			}
+		}
+		if len(seen) != len(before) {
+			return fmt.Sprintf("range: Range with a clearing callback visited %d distinct fields, %d were populated", len(seen), len(before))
 		}
 	case "emptied-view":
 		// a list or map that was written to and emptied again is unpopulated: Has false, Range skips it,
